@@ -565,3 +565,36 @@ Proof.
   replace ((b0 + 256 * b1) mod 256) with b0 by lia. replace ((b0 + 256 * b1) / 256) with b1 by lia.
   split; [reflexivity | lia].
 Qed.
+
+(* the packed specification machine (runtime monitor) decodes what it encodes *)
+Lemma pack_lt : forall B l, 0 < B -> Forall (fun x => x < B) l -> pack B l < B ^ N.of_nat (length l).
+Proof.
+  intros B l HB. induction l as [|x l IH]; intro H; [cbn; lia|].
+  inversion H; subst. specialize (IH H3). cbn [pack length]. unfold pk.
+  rewrite Nat2N.inj_succ, N.pow_succ_r'. nia.
+Qed.
+
+Lemma regs_dec_enc : forall r, regs_ok r -> regs_dec (regs_enc r) = r /\ regs_enc r < 2 ^ 66.
+Proof.
+  intros [nt p a e nf fr] (Hp & Ha & He & Hf). cbn [t_pid t_addr t_ep t_frame] in *.
+  unfold regs_dec, regs_enc. cbn [t_new_token t_pid t_addr t_ep t_new_frame t_frame].
+  assert (F : Forall (fun x => x < 2048) [b2n nt; p; a; e; b2n nf; fr]).
+  { repeat constructor; try lia; [destruct nt | destruct nf]; cbn [b2n]; lia. }
+  split.
+  - change 6%nat with (length [b2n nt; p; a; e; b2n nf; fr]). rewrite unpack11_eq, unpack_pack by exact F.
+    destruct nt, nf; reflexivity.
+  - pose proof (pack_lt 2048 _ ltac:(lia) F) as B. cbn [length] in B. exact B.
+Qed.
+
+Lemma tsp_dec_enc : forall p r, regs_ok r -> (forall l, p = Some l -> Forall (fun b => b < 256) l) ->
+  tsp_dec (tsp_enc (p, r)) = (p, r).
+Proof.
+  intros p r Hr Hp. destruct (regs_dec_enc r Hr) as [E B]. unfold tsp_dec, tsp_enc. cbn [fst snd].
+  set (x := match p with None => 0 | Some l => bytes_enc l end).
+  rewrite N.shiftr_div_pow2, N.land_ones.
+  replace ((regs_enc r + 2 ^ 66 * x) / 2 ^ 66) with x by (apply N.div_unique with (regs_enc r); [exact B | lia]).
+  replace ((regs_enc r + 2 ^ 66 * x) mod 2 ^ 66) with (regs_enc r) by (apply N.mod_unique with x; [exact B | lia]).
+  rewrite E. subst x. destruct p as [l|]; [|reflexivity].
+  pose proof (bytes_enc_pos l) as P. destruct (bytes_enc l) eqn:EB; [lia|]. rewrite <- EB.
+  rewrite bytes_dec_enc by (apply Hp; reflexivity). reflexivity.
+Qed.
